@@ -2007,6 +2007,10 @@ class FortranFile:
             if not match:
                 ln = i
                 break
+            # A `!>` line after a trailing docstring documents the next entity
+            if match.group(1) == ">" and not predocmark:
+                ln = i
+                break
             docstring.append(next_line[match.end(0) :].strip())
         return ln, docstring, predocmark
 
